@@ -98,7 +98,7 @@ def run(check, an: Analysis):
                       isinstance(e['value'], ast.Constant) and e['value'].value is False
                       for e in path.events)
             revoked = any(e.kind == 'call' and isinstance(e.node, ast.Call) and
-                          ast.unparse(e.node.func) == 'self._cancel_self.revoke'
+                          rules.text_at(path, e, e.node.func) == 'self._cancel_self.revoke'
                           for e in path.events)
             check.instance('P', 'Scope._disable_interrupts', off and revoked,
                            where_fn(base_disable.fn),
@@ -123,9 +123,9 @@ def run(check, an: Analysis):
         sched = [e for e in path.events if e.kind == 'test'
                  and e.get('key') == ('truth', 'interrupt.scheduled')]
         revoked = any(e.kind == 'call' and isinstance(e.node, ast.Call) and
-                      ast.unparse(e.node.func) == 'interrupt.revoke' for e in path.events)
+                      rules.text_at(path, e, e.node.func) == 'interrupt.revoke' for e in path.events)
         removed = any(e.kind == 'call' and isinstance(e.node, ast.Call) and
-                      ast.unparse(e.node.func) == 'self._waiting.remove'
+                      rules.text_at(path, e, e.node.func) == 'self._waiting.remove'
                       for e in path.events)
         if sched:
             forms[key_truth(sched[0])] = (revoked, removed)
